@@ -256,6 +256,9 @@ def random_tcp_history(rng, hid, steps=6):
     tcp["tcp6"] = dict(label="tcp6", rules=[R("tcp.local", P("/", "s1"))], ann={"tcp-service-port": "7002"})
     # port level keys declared by one of the ingresses that share the port
     tcp["tcp8"] = dict(label="tcp8", rules=[R("tcp8.local", P("/", "s1"))], ann={"tcp-service-port": "7001", "tcp-service-proxy-protocol": "true"})
+    # client certificates on a tcp service: the CA secret comes and goes
+    tcp["tcpa"] = dict(label="tcpa", rules=[R("tcpa.local", P("/", "s1"))], tls=[T("c1", "tcpa.local")],
+                       ann={"tcp-service-port": "7001", "auth-tls-secret": "ca", "auth-tls-verify-client": "on"})
     tcp["tcp9"] = dict(label="tcp9", rules=[R("tcp9.local", P("/", "s2"))], ann={"tcp-service-port": "7001", "tcp-service-log-format": "%ci"})
     h = dict(id=hid, opt=dict(shards=rng.choice([0, 0, 3]), watchwithoutclass=True), steps=[])
     live = {}
@@ -273,8 +276,10 @@ def random_tcp_history(rng, hid, steps=6):
                 live[slot] = t
             elif r < 0.9:
                 ops.append(op_eps(rng.choice(["s1", "s2"]), rng.choice(["e0", "e1", "e2"])))
-            else:
+            elif r < 0.95:
                 ops.append(op_sec("c1", rng.choice(["absent", "crt:c1", "crt:c1v2"])))
+            else:
+                ops.append(op_sec("ca", rng.choice(["absent", "ca:ca1", "ca:ca2"])))
         h["steps"].append(dict(ops=ops, fullfirst=False))
     return h
 
